@@ -192,12 +192,12 @@ impl<T> RawTable<T> {
             // We do the best we can, which is to carry over all the current leftovers, and _then_
             // do an incremental resize. This at least moves only the current leftovers, rather
             // than the current full set of elements.
-            self.carry_all(hasher);
-            self.grow(additional);
+            self.carry_all(&hasher);
+            self.grow(additional, &hasher);
         } else {
             // We probably have to resize, but since we don't have any leftovers, we can do it
             // incrementally.
-            self.grow(additional);
+            self.grow(additional, &hasher);
         }
     }
 
@@ -237,10 +237,10 @@ impl<T> RawTable<T> {
             }
             Ok(())
         } else if self.leftovers.is_some() {
-            self.carry_all(hasher);
-            self.try_grow(additional, true)
+            self.carry_all(&hasher);
+            self.try_grow(additional, true, &hasher)
         } else {
-            self.try_grow(additional, true)
+            self.try_grow(additional, true, &hasher)
         }
     }
 
@@ -253,7 +253,7 @@ impl<T> RawTable<T> {
             assert!(self.leftovers.is_none());
             // Even though this _may_ succeed without growing due to tombstones, handling
             // that case is convoluted, so we just assume this would grow the map.
-            self.grow(1);
+            self.grow(1, &hasher);
             return self.insert(hash, value, hasher);
         }
 
@@ -472,14 +472,19 @@ impl<T: Clone> RawTable<T> {
 impl<T> RawTable<T> {
     #[cold]
     #[inline(never)]
-    fn grow(&mut self, extra: usize) {
-        if self.try_grow(extra, false).is_err() {
+    fn grow(&mut self, extra: usize, hasher: &impl Fn(&T) -> u64) {
+        if self.try_grow(extra, false, hasher).is_err() {
             unsafe { core::hint::unreachable_unchecked() };
         }
     }
 
     #[cold]
-    fn try_grow(&mut self, extra: usize, fallible: bool) -> Result<(), TryReserveError> {
+    fn try_grow(
+        &mut self,
+        extra: usize,
+        fallible: bool,
+        hasher: &impl Fn(&T) -> u64,
+    ) -> Result<(), TryReserveError> {
         debug_assert!(self.leftovers.is_none());
 
         // We need to grow the table by at least a factor of (R + 1)/R to ensure that
@@ -517,6 +522,13 @@ impl<T> RawTable<T> {
                 table: old_table,
                 items: old_table_items,
             });
+            if mem::size_of::<T>() == 0 {
+                // hashbrown's `RawIter::reflect_remove` cannot cope with zero-sized elements
+                // (it measures distances between buckets), so such a table must never stay split,
+                // or removing a leftover element would panic. Move everything over right away;
+                // there is at most a handful of zero-sized elements anyway.
+                self.carry_all(hasher);
+            }
         }
         Ok(())
     }
